@@ -5,6 +5,7 @@ CONSTANT EmitCase = FALSE
 CONSTANT EmitMod = 1
 CONSTANT Alphabet = "A"
 CONSTANT MCFuelC = 60
+CONSTANT NB = 17
 CONSTANT FUEL <- MCFuel
 INVARIANT VerdictReflectsState
 INVARIANT TypeInv
